@@ -104,7 +104,7 @@ func buildCases(rep *lib.Report) []*ccase {
 		cs = append(cs, c)
 	}
 	maxExh := 2
-	nRand3 := 200
+	nRand3 := 120
 	if lib.Thorough() {
 		maxExh = 3
 		nRand3 = 0
@@ -144,7 +144,7 @@ func buildCases(rep *lib.Report) []*ccase {
 	}
 	// further call forms: FV = call through a function value (callee from the call graph), MV = call through a
 	// method value (bound method wrapper; compared with the specification only, not with the one-call model)
-	nMore := 160
+	nMore := 100
 	if lib.Thorough() {
 		nMore = 3000
 	}
@@ -156,7 +156,7 @@ func buildCases(rep *lib.Report) []*ccase {
 	rep.Extra["exhaustive_up_to_arity"] = maxExh
 	rep.Extra["random_arity3_cases"] = nRand3
 	// malformed stream: ragged rows, positions out of range, negative positions
-	nMal := 100
+	nMal := 80
 	if lib.Thorough() {
 		nMal = 1500
 	}
@@ -646,7 +646,7 @@ func main() {
 	rep := lib.NewReport(prop)
 	rep.Rule = "one case per (specification matrix, form, body, source position): all 0/1 Args x Rets matrices for arity <= 2 (and 3 in the thorough tier) x {F, FM, I, IP} x {body flows all, body flows nothing}; sampled arity 3 in the quick tier; plus a malformed stream; distinct = distinct case key; non-trivial = arity >= 1"
 	cs := buildCases(rep)
-	batchSize := 700
+	batchSize := 900
 	nb := 0
 	for lo := 0; lo < len(cs); lo += batchSize {
 		hi := min(lo+batchSize, len(cs))
